@@ -205,10 +205,12 @@ void sbin(Rng& rng)
         for (I r : rv) {
             A a = _impl::from_rep<A>(_impl::from_rep<elastic_integer<LD, LN>>(AR(l)));
             B b = _impl::from_rep<B>(_impl::from_rep<elastic_integer<RD, RN>>(BR(r)));
+#if !defined(VH_SCMP_ONLY)
             { SHEAD("sbin", "add") VH_RUN(a + b, print_es) }
             { SHEAD("sbin", "sub") VH_RUN(a - b, print_es) }
             { SHEAD("sbin", "mul") VH_RUN(a * b, print_es) }
             { SHEAD("sbin", "div") VH_RUN(a / b, print_es) }
+#endif
             { SHEAD("scmp", "lt") VH_RUN(a < b, print_tv) }
             { SHEAD("scmp", "le") VH_RUN(a <= b, print_tv) }
             { SHEAD("scmp", "gt") VH_RUN(a > b, print_tv) }
